@@ -8,6 +8,7 @@ package main
 import (
 	"go/ast"
 	"go/token"
+	"sort"
 	"strconv"
 	"strings"
 )
@@ -410,6 +411,72 @@ func init() {
 			untranslatable = append(untranslatable, "smtp_cmd_site")
 		}
 		emitBool("smtp_cmd_endresponse_always", endResp, "smtp/smtp.go Client.cmd: no return between Text.StartResponse(id) and Text.EndResponse(id)")
+
+		// the inventory of deadline-(re)arming points: every function of client.go / smtp that calls Set*Deadline or
+		// UpdateDeadline, with that call's place among the function's protocol calls ("*" marks a call inside a loop)
+		landmarks := []string{"SetDeadline", "SetReadDeadline", "SetWriteDeadline", "UpdateDeadline", "NewClient", "Hello", "Noop", "Quit",
+			"Mail", "Rcpt", "Data", "Reset", "StartTLS", "Auth", "HasConnection"}
+		var inventory []string
+		for _, pk := range []struct {
+			name string
+			pp   *pkg
+		}{{"mail", p}, {"smtp", sp}} {
+			var names []string
+			for n := range pk.pp.funcs {
+				names = append(names, n)
+			}
+			sort.Strings(names)
+			for _, n := range names {
+				fn := pk.pp.funcs[n]
+				if fn.Body == nil {
+					continue
+				}
+				type span struct{ a, b token.Pos }
+				var loops []span
+				ast.Inspect(fn.Body, func(x ast.Node) bool {
+					switch l := x.(type) {
+					case *ast.ForStmt:
+						loops = append(loops, span{l.Body.Pos(), l.Body.End()})
+					case *ast.RangeStmt:
+						loops = append(loops, span{l.Body.Pos(), l.Body.End()})
+					}
+					return true
+				})
+				var seq []string
+				arming := false
+				ast.Inspect(fn.Body, func(x ast.Node) bool {
+					ce, ok := x.(*ast.CallExpr)
+					if !ok {
+						return true
+					}
+					fun := pk.pp.src(ce.Fun)
+					for _, lm := range landmarks {
+						if fun == lm || strings.HasSuffix(fun, "."+lm) {
+							t := lm
+							for _, sp := range loops {
+								if ce.Pos() >= sp.a && ce.Pos() < sp.b {
+									t += "*"
+									break
+								}
+							}
+							seq = append(seq, t)
+							if strings.Contains(lm, "Deadline") {
+								arming = true
+							}
+						}
+					}
+					return true
+				})
+				if arming {
+					inventory = append(inventory, pk.name+"."+n+": "+strings.Join(seq, " "))
+				}
+			}
+		}
+		invItems := make([]string, len(inventory))
+		for i, l := range inventory {
+			invItems[i] = coqBytes(l)
+		}
+		emit("(* deadline-(re)arming points: %s *)\nDefinition deadline_inventory : list (list N) :=\n  [%s].\n", strings.Join(inventory, " | "), strings.Join(invItems, ";\n   "))
 
 		// sendSingleMsg: a failed RSET after a failed MAIL / RCPT / DATA closes the connection; a rejected DATA is
 		// followed by RSET (repairs of C03/C04 that change the send dialogue the dial-and-send model runs through)
